@@ -17,6 +17,9 @@
 (* what was written, names/getter/setter denote position by position the   *)
 (* same variables") all say: every observation equals the model store.     *)
 (*                                                                         *)
+(* The lazy operators (and_, or_, if_exp) have no state; their contract is  *)
+(* that every operand / branch arrives as a zero-argument thunk.           *)
+(*                                                                         *)
 (* Trace validation: Calls (IOEnv.TRACE_FILE) is a batch of recorded       *)
 (* invocations; each has the static facts (arities, nouts, opts flags) and *)
 (* the probe events <<kind, values, law>> in the order they were performed *)
@@ -47,6 +50,7 @@ StaticBad ==
   ELSE IF C.op = "for_stmt" /\ C.ntest > 0 THEN "arity:extra-test-takes-no-argument"
   ELSE IF C.op = "for_stmt" /\ C.has_iterate_names = 0 THEN "opts:iterate_names-missing"
   ELSE IF C.opts_ok = 0 THEN "opts:directives-differ-from-those-placed-in-the-loop"
+  ELSE IF C.op \in {"and_", "or_", "if_exp"} /\ (C.na # 0 \/ C.nb # 0) THEN "arity:lazy-operands-are-zero-argument-thunks"
   ELSE ""
 
 Init == /\ cid \in 1..Len(Calls)
